@@ -152,6 +152,9 @@ def build(desc, r, fr):
         return build(desc[1], r, fr) % build(desc[2], r, fr)
     if k == "pair":
         return fr.pair(build(desc[1], r, fr))
+    if k == "pidx":
+        # item taken from a computed sub-expression (the owner of the ItemRef is an expression node)
+        return fr.pair(build(desc[1], r, fr))[desc[2]]
     if k == "inv":
         return ~build(desc[1], r, fr)
     if k == "pos":
@@ -193,6 +196,8 @@ def ev(desc, d, g):
     if k == "pair":
         x = ev(desc[1], d, g)
         return [x, x + 1]
+    if k == "pidx":
+        return ev(desc[1], d, g) + desc[2]
     if k == "inv":
         return ~ev(desc[1], d, g)
     if k == "pos":
@@ -285,6 +290,8 @@ def show(desc):
         return f"({show(desc[1])} % {show(desc[2])})"
     if k == "pair":
         return f"pair({show(desc[1])})"
+    if k == "pidx":
+        return f"pair({show(desc[1])})[{desc[2]}]"
     if k == "pow":
         return f"({show(desc[1])} ** {show(desc[2])})"
     if k == "call":
